@@ -11,3 +11,4 @@ open IQE.Props.C05
 #print axioms C05_witness_definite_f64
 #print axioms C05_witness_i32_narrowing
 #print axioms C05_witness_nan_and_zero
+#print axioms C05_current_is_intended
